@@ -190,6 +190,12 @@ theorem C16_grid_positions3 (n0 n1 n2 : ℕ) (bb : ℕ → ℕ → K) (g c : ℕ
   have := hw.inside (fun _ _ => 0) g ⟨i, hi, j, hj, k, hk, hijk.symm⟩
   exact congrFun this c
 
+/-- non-vacuity / the boundary case of the property: a 5×2 grid on [0,4]×[0,4]; slot 7 = (i,j) = (3,1) holds (3, 4) -/
+example : gridImpl (α := ℚ) 2 5 2 1 (fun _ k => if k = 0 then 0 else 4) 7 0 = 3 ∧
+    gridImpl (α := ℚ) 2 5 2 1 (fun _ k => if k = 0 then 0 else 4) 7 1 = 4 := by
+  rw [C16_grid_positions2 5 2 1 _ 7 0 (by norm_num), C16_grid_positions2 5 2 1 _ 7 1 (by norm_num)]
+  norm_num [gridSpec, linspace]
+
 /-! ## gaussian_blurring — the values -/
 section blurT
 variable [LinearOrder K] [IsStrictOrderedRing K]
@@ -377,6 +383,11 @@ theorem C16_time_avg (T w n : ℕ) (x : ℕ → K) (h : n + w ≤ T) :
   simp only [e1, e2, Nat.add_sub_cancel_left, sumRange_eq]
   push_cast
   rfl
+
+/-- non-vacuity: 4 frames with values 0,1,2,3, window 2, index 1: mean of frames 1,2 = 3/2 -/
+example : timeAvgImpl (α := ℚ) 4 (2 : ℕ) (fun t => (t : ℚ)) 1 = 3 / 2 := by
+  rw [C16_time_avg 4 2 1 _ (by norm_num)]
+  norm_num [Finset.sum_range_succ]
 
 /-- the same against the hand-written Spec -/
 theorem C16_time_refines (T w n : ℕ) (x : ℕ → K) (h : n + w ≤ T) :
